@@ -61,6 +61,11 @@ def plan(tier, seed):
     for fam in ("hexahedron", "hexahedron20"):
         for mat in MATS[:5]:
             cases.append(dict(key=f"biaxial/{fam}/{mat}", kind="biaxial", fam=fam, n=2, mat=mat, seed=seed, cost=10))
+    # load cases along every axis / ordered axis pair on a box with three different extents, symmetric and
+    # two-sided (sym False on the loaded axis) variants
+    for fam in ["hexahedron", "quad"] + ([] if quick else ["tetra", "triangle", "hexahedron20", "quad8"]):
+        for mat in (MATS[:1] if quick else MATS[:3]):
+            cases.append(dict(key=f"axes/{fam}/{mat}", kind="axes", fam=fam, mat=mat, seed=seed, cost=25))
     for mat in MATS + ["neo_hooke-incompressible", "mooney_rivlin-incompressible", "yeoh-incompressible", "ogden-incompressible"]:
         cases.append(dict(key=f"view/{mat}", kind="view", mat=mat, seed=seed, cost=3))
     return cases
@@ -334,6 +339,88 @@ def run(case):
             for k in range(1, len(us)):
                 c.close(f"lam={lam}/subdivision-independence/{k}", "final state independent of the ramp subdivision", us[k], us[0], scale=max(np.abs(us[0]).max(), 1e-3))
         return c.result(dict(case=case["key"], levels=list(levels)))
+    if kind == "axes":
+        import itertools
+
+        fam, mat = case["fam"], case["mat"]
+        d = zoo.BASE[fam][1]
+        W = ENERGY(mat)
+        um = make_umat(mat)
+        ext = np.array([1.0, 1.5, 2.0])[:d] if d == 3 else np.array([1.5, 0.75])
+        progs = [("uniaxial", (a,), sym) for a in range(d) for sym in (True, False)]
+        progs += [("biaxial", ab, sym) for ab in itertools.permutations(range(d), 2) for sym in (True, False)]
+        for lc_kind, axes, symall in progs:
+            for lams in ((1.3, 0.9), (0.85, 1.2)):
+                lams = lams[:len(axes)]
+                fixed = {a: l_ for a, l_ in zip(axes, lams)}
+                if d == 2:
+                    fixed[2] = 1.0
+                free = [k for k in range(3) if k not in fixed]
+                l = solve_free(W, fixed, free) if free else [fixed[k] for k in range(3)]
+                mesh0, _, _ = build(fam, "distorted", seed, n=2)
+                mesh = zoo._finish(fem.Mesh(mesh0.points * ext, mesh0.cells, mesh0.cell_type), fam)
+                region = zoo.region(fam, mesh)
+                Fcls = fem.Field if d == 3 else fem.FieldPlaneStrain
+                field = fem.FieldContainer([Fcls(region, dim=d)])
+                body = fem.SolidBody(um, field)
+                # two-sided: no symmetry plane on the loaded axes, both end faces move by -/+ move (biaxial) or the left one
+                # is held (uniaxial)
+                sym = tuple(bool(symall or k not in axes) for k in range(3))
+                shift = np.zeros(d)
+                if lc_kind == "uniaxial":
+                    a = axes[0]
+                    mv = [(lams[0] - 1) * ext[a]]
+                    bounds, lc = fem.dof.uniaxial(field, clamped=False, move=0.0, axis=a, sym=sym)
+                    names = ["move"]
+                else:
+                    if symall:
+                        mv = [(lam_ - 1) * ext[a] for a, lam_ in zip(axes, lams)]
+                    else:
+                        mv = [(lam_ - 1) * ext[a] / 2 for a, lam_ in zip(axes, lams)]
+                        for a, m_ in zip(axes, mv):
+                            shift[a] = -m_
+                    bounds, lc = fem.dof.biaxial(field, clampes=(False, False), moves=(0.0, 0.0), axes=axes, sym=sym)
+                    names = [f"move-right-{a}" for a in axes]
+                sub = f"{lc_kind}/axes={axes}/sym={symall}/lam={lams}"
+                if any(nm not in bounds for nm in names):
+                    c.bad(sub + "/names", "documented boundary names", sorted(bounds), names)
+                    continue
+                nsub = 2
+                ramp = {bounds[nm]: list(np.linspace(0, m_, nsub + 1)[1:]) for nm, m_ in zip(names, mv)}
+                if lc_kind == "biaxial" and not symall:
+                    for a, m_ in zip(axes, mv):
+                        nm = f"move-left-{a}"
+                        if nm not in bounds:
+                            c.bad(sub + "/names", "documented boundary names", sorted(bounds), nm)
+                            continue
+                        ramp[bounds[nm]] = list(np.linspace(0, -m_, nsub + 1)[1:])
+                step = fem.Step([body], ramp=ramp, boundaries=bounds)
+                job = fem.CharacteristicCurve(steps=[step], boundary=bounds[names[0]])
+                try:
+                    job.evaluate(verbose=False)
+                except Exception as ex:  # noqa
+                    c.bad(sub + "/exception", "load case on a box along the given axes must solve", repr(ex)[:200], "solution")
+                    continue
+                c.trans += nsub
+                c.outcomes.add(f"{lc_kind}/{len(axes)}/{'sym' if symall else 'two-sided'}")
+                X = mesh.points
+                uex = X @ (np.diag(l[:d]) - np.eye(d)).T + shift
+                u = job.res.x[0].values
+                c.close(sub + "/displacement", "displacement field = homogeneous deformation with the analytic transverse stretch", u, uex, scale=max(np.abs(uex).max(), 1e-3))
+                Fq = job.res.x.extract()[0]
+                c.close(sub + "/F", "uniform deformation gradient", Fq, np.broadcast_to(np.diag(l)[:, :, None, None], Fq.shape), scale=1.0)
+                # reaction forces on every moved face: first Piola-Kirchhoff stress x reference area
+                for a, nm in zip(axes, names):
+                    Paa = dW(W, l, a)
+                    area = float(np.prod([ext[k] for k in range(d) if k != a]))
+                    fr = fem.tools.force(job.res.x, job.res.fun, bounds[nm])
+                    ref = np.zeros(d)
+                    ref[a] = Paa * area
+                    c.close(sub + f"/force/{nm}", "reaction force on the moved face = analytic first Piola-Kirchhoff stress x reference area", np.ravel(fr)[:d], ref, scale=max(abs(Paa * area), 0.1))
+                Fy = np.ravel(np.array(job.y)[-1])
+                a0 = axes[0]
+                c.close(sub + "/curve-force", "characteristic curve force = analytic stress x area", Fy[a0], dW(W, l, a0) * float(np.prod([ext[k] for k in range(d) if k != a0])), scale=max(abs(dW(W, l, a0)), 0.1))
+        return c.result(dict(case=case["key"], programs=len(progs), extents=ext.tolist()))
     if kind == "view":
         mat = case["mat"]
         inc = mat.endswith("-incompressible")
